@@ -1,2 +1,8 @@
-"""Hook commits recorded in MANIFEST.hooks.source_commits."""
-HOOK_COMMITS = []
+"""Hook commits recorded in MANIFEST.hooks.source_commits (guard: --cfg reinterpretcat_vrp_verif)."""
+HOOK_COMMITS = [
+    "2ffb512",  # verif: declare cfg(reinterpretcat_vrp_verif) for the unexpected_cfgs lint
+    "e252cae",  # verif hook H7: expose lkh Tour::try_path behind cfg(reinterpretcat_vrp_verif)
+    "bd6a6e1",  # verif hook H3: re-export search utils behind cfg(reinterpretcat_vrp_verif)
+    "8501982",  # verif hook H5: expose gsom contraction helpers behind cfg(reinterpretcat_vrp_verif)
+    "e9bcde5",  # verif hook H4: expose dynamic selective reward arithmetic behind cfg(reinterpretcat_vrp_verif)
+]
